@@ -102,10 +102,24 @@ func (c *codec) DecodeBody(header *Header, source io.Reader) (body *Body, err er
 			if err := c.compressor.DecompressWithLength(io.LimitReader(source, int64(header.BodyLength)), decompressedBody); err != nil {
 				return nil, fmt.Errorf("cannot decompress body: %w", err)
 			} else {
-				source = decompressedBody
+				return c.decodeBodyContents(header, decompressedBody)
 			}
 		}
 	}
+	// The body ends where the header says: its contents cannot extend past that point, and whatever they do not
+	// use is skipped (the specifications, section 1: the body "may contain more data"; it is "safe to ignore the remainder").
+	limited := &io.LimitedReader{R: source, N: int64(header.BodyLength)}
+	if body, err = c.decodeBodyContents(header, limited); err != nil {
+		return nil, err
+	} else if limited.N > 0 {
+		if _, err = io.CopyN(ioutil.Discard, source, limited.N); err != nil {
+			return nil, fmt.Errorf("cannot skip remainder of body: %w", err)
+		}
+	}
+	return body, nil
+}
+
+func (c *codec) decodeBodyContents(header *Header, source io.Reader) (body *Body, err error) {
 	body = &Body{}
 	if header.IsResponse && header.Flags.Contains(primitive.HeaderFlagTracing) {
 		if body.TracingId, err = primitive.ReadUuid(source); err != nil {
